@@ -66,6 +66,8 @@ class World:
         self.view = {}  # bucket id -> {"meta":..., "events":[(id,ts,dur,data)...] sorted by id}
         self.stale = {}  # bucket id -> Bucket handle of a bucket deleted since
         self.last_obj = None
+        self.others = []
+        self.nother = 0
 
     # ------------------------------------------------------------------ store lifecycle
     def open(self):
@@ -87,6 +89,14 @@ class World:
         return self.ds
 
     def _release(self):
+        for o in self.others:
+            c = getattr(o.storage_strategy, "conn", None)
+            if c is not None:
+                try:
+                    c.close()
+                except Exception:
+                    pass
+        self.others = []
         st = getattr(self.ds, "storage_strategy", None)
         self.ds = None
         self.handles = {}
@@ -100,6 +110,13 @@ class World:
                         closed = True
                     except Exception:
                         pass
+                    if attr == "db" and hasattr(c, "init") and hasattr(c, "deferred"):
+                        # the simulated process ends here: a process-global peewee handle starts its next
+                        # life unconfigured, as it would in a new OS process
+                        try:
+                            c.init(None)
+                        except Exception:
+                            pass
         st = None
         if not closed and self.backend != "memory":
             gc.collect()  # a refactored store without conn/db: rely on finalisers
@@ -487,6 +504,32 @@ class World:
         self.ds = Datastore(lambda testing=True, **k: st, testing=True)
         self.handles = {}
         return {"ret": None, "exc": None}
+
+    def op_other_store(self, s):
+        """Another store object of the same kind in the same process (its own file / its own memory).
+        Returns what it lists when new; then a bucket with the given id is created and fed there."""
+        from aw_datastore import Datastore
+        from aw_datastore.storages import MemoryStorage, SqliteStorage
+
+        if self.backend == "peewee":
+            return {"skipped": "peewee has one process-global handle: one store per process"}
+        self.nother += 1
+        if self.backend == "memory":
+            ds2 = Datastore(MemoryStorage, testing=True)
+        else:
+            ds2 = Datastore(SqliteStorage, testing=True, filepath=os.path.join(self.rundir, "other-%d.sqlite" % self.nother), enable_lazy_commit=self.backend == "sqlite")
+        listing = dict(ds2.buckets())
+        out = self._call(ds2.create_bucket, s["b"], type="other", client="other", hostname="other", created=us_to_dt(1_600_000_000_000_000), name="other store")
+        if out["exc"] is None:
+            self._call(out["ret"].insert, mk_event(s["ev"]))
+        self.others.append(ds2)
+        if len(self.others) > 3:
+            old = self.others.pop(0)
+            c = getattr(old.storage_strategy, "conn", None)
+            if c is not None:
+                c.close()
+        self.probes["other_store_in_same_process"] += 1
+        return {"ret": listing, "exc": None}
 
     def op_tick(self, s):
         seams.CLOCK.advance(s["us"])
